@@ -128,7 +128,13 @@ impl GenerationPass for AvailableValuePass {
                 // giving it the empty map would claim "nothing is known" for
                 // a node whose predecessors are merely later in the source,
                 // and such claims can chase each other around a cycle forever.
-                if !node.prevs().is_empty() && !node.prevs().iter().any(|x| visited.contains(x)) {
+                // An entry node does not wait: what holds after it does not
+                // come from its predecessors, and a function whose body loops
+                // back to its own label has no other way in.
+                if !node.is_any_entry()
+                    && !node.prevs().is_empty()
+                    && !node.prevs().iter().any(|x| visited.contains(x))
+                {
                     continue;
                 }
 
